@@ -102,6 +102,7 @@ theorem prefixPhase_truncS (b b' : Bytes) (isP : Bool) (hv : Bytes.Valid b) (h :
     ∀ n, b'.index ≤ n → (peek c .integer b' = .ok (b'.slc[b'.index]?, b') → Adm c .integer n b') →
       (c.requiredIntegerDigits = true → b'.index < n) → prefixPhase c (trunc n b) = .ok (isP, trunc n b') := by
   unfold prefixPhase at h
+  simp only [prefixRepair, Bool.false_eq_true, if_false] at h
   by_cases hfmt : (c.feats.format && c.basePrefix ≠ 0) = true
   · rw [if_pos hfmt] at h
     cases hr0 : readIfValueCased c .integer 48 b with
@@ -121,6 +122,7 @@ theorem prefixPhase_truncS (b b' : Bytes) (isP : Bool) (hv : Bytes.Valid b) (h :
         have hrest := peek_rest c H.rel .integer b b1 _ hv hpk (fun y hy => isDigit_sepH H y hy)
         rw [← r1] at hrest
         unfold prefixPhase
+        simp only [prefixRepair, Bool.false_eq_true, if_false]
         rw [if_pos hfmt, r6 n (fun hh => Bool.noConfusion hh) (fun _ => hadm hrest)]
         simp only [bind, Except.bind, Bool.false_eq_true, if_false, pure, Except.pure]
       | true =>
@@ -162,6 +164,7 @@ theorem prefixPhase_truncS (b b' : Bytes) (isP : Bool) (hv : Bytes.Valid b) (h :
             intro n hn hadm hreq
             have hlt0 := (r4 rfl).1
             unfold prefixPhase
+            simp only [prefixRepair, Bool.false_eq_true, if_false]
             rw [if_pos hfmt, r6 n (fun _ => by omega) (fun hh => Bool.noConfusion hh)]
             simp only [bind, Except.bind, if_true]
             have hq7 : readIfValue c .integer c.basePrefix c.caseSensitiveBasePrefix (trunc n b1)
@@ -191,6 +194,7 @@ theorem prefixPhase_truncS (b b' : Bytes) (isP : Bool) (hv : Bytes.Valid b) (h :
     refine ⟨rfl, Nat.le_refl _, hv, rfl, ?_⟩
     intro n _ _ _
     unfold prefixPhase
+    simp only [prefixRepair, Bool.false_eq_true, if_false]
     rw [if_neg hfmt]
     rfl
 
@@ -199,6 +203,7 @@ that `peek` (a base prefix is configured) or the state it was given -/
 theorem prefixPhase_miss (b b1 : Bytes) (v : Option Nat) (hp : peek c .integer b = .ok (v, b1)) (hv48 : v ≠ some 48) :
     prefixPhase c b = .ok (false, if (c.feats.format && c.basePrefix ≠ 0) = true then b1 else b) := by
   unfold prefixPhase
+  simp only [prefixRepair, Bool.false_eq_true, if_false]
   by_cases hfmt : (c.feats.format && c.basePrefix ≠ 0) = true
   · rw [if_pos hfmt, if_pos hfmt, readIfValueCased_eqS H.rel .integer 48 b b1 v hp, if_neg hv48]
     simp only [bind, Except.bind, Bool.false_eq_true, if_false, pure, Except.pure]
